@@ -262,6 +262,8 @@ pub fn run_real<R: RunnableCode>(
     step_limit: u64,
 ) -> RealRun {
     use concordium_wasm::machine::verif_hooks;
+    // the linear memory of this artifact can never exceed its declared maximum
+    mc_core::set_dirty_limit(art.memory.as_ref().map(|m| (m.max_size.max(m.init_size) as usize).saturating_mul(65536)).unwrap_or(0));
     verif_hooks::reset_steps();
     verif_hooks::set_step_limit(step_limit);
     let vargs: Vec<Value> = args.iter().map(|v| to_value(*v)).collect();
